@@ -25,7 +25,11 @@ func staticMetricSites(res *ShardResult) {
 		dir  string
 		defs metrics.Definitions
 	}
-	pkgs := []pkg{{"/repo", wal.MetricDefinitions}, {"/repo/verifier", verifier.MetricDefinitions}}
+	repo := "/repo"
+	if v := os.Getenv("VERIF_REPO"); v != "" {
+		repo = v
+	}
+	pkgs := []pkg{{repo, wal.MetricDefinitions}, {repo + "/verifier", verifier.MetricDefinitions}}
 	for _, p := range pkgs {
 		counters, gauges := map[string]bool{}, map[string]bool{}
 		for _, d := range p.defs.Counters {
@@ -68,7 +72,7 @@ func staticMetricSites(res *ShardResult) {
 				}
 				if !set[name] {
 					res.Findings = append(res.Findings, core.Finding{Prop: "C20", Engine: "static-sites",
-						Msg:  fmt.Sprintf("%s(%q) at %s:%d is not in the package's published MetricDefinitions", se.Sel.Name, name, strings.TrimPrefix(pos.Filename, "/repo/"), pos.Line),
+						Msg:  fmt.Sprintf("%s(%q) at %s:%d is not in the package's published MetricDefinitions", se.Sel.Name, name, strings.TrimPrefix(pos.Filename, repo+"/"), pos.Line),
 						SigS: "C20|static|" + name})
 				}
 				return true
